@@ -275,6 +275,10 @@ def run(c):
     sim = tlc.simulate('TriggerTable', mc_cfg(n=3, grid='small'), num=60 if quick else 3000, depth=40, seed=c.seed + 4)
     c.transitions += sim.generated
     replay(c, [b for b in sim.behaviours if len(b[-1][2]['resp']) >= 2], wd, 'response')
+    # the table is rebuilt with every response of the service: a row that is unchanged keeps, for EACH of its actions, the
+    # tracepoint's own fire count (shared with C04)
+    from . import c04
+    c04.multi_action_leg(c, wd)
 
 
 if __name__ == '__main__':
